@@ -58,6 +58,8 @@ def reference_graph(g, mol):
     edges = []
     tok_offset = {}
     list_sources = set()
+    known = []  # the RECORDED deviation for descriptors with a list: towards every compatible listed descriptor of positive
+    #             entry both a stochastic and a termination edge (known finding); used to tell that deviation from any other
 
     def add_token(tok):
         ref = token_ref_cached(tok)
@@ -113,10 +115,13 @@ def reference_graph(g, mol):
                     t2, d2, cls2 = allb[i]
                     if rule(d, d2) and positive(w):
                         edges.append((atom_of(t, d), atom_of(t2, d2), "stochastic" if cls2 == "R" else "termination", int(d.bond_type), w))
+                        known.append((atom_of(t, d), atom_of(t2, d2), "stochastic", int(d.bond_type)))
+                        known.append((atom_of(t, d), atom_of(t2, d2), "termination", int(d.bond_type)))
             else:
                 for (t2, d2, cls2) in allb:
                     if rule(d, d2) and positive(d2.weight):
                         edges.append((atom_of(t, d), atom_of(t2, d2), "stochastic" if cls2 == "R" else "termination", int(d.bond_type), d2.weight))
+                        known.append((atom_of(t, d), atom_of(t2, d2), "stochastic" if cls2 == "R" else "termination", int(d.bond_type)))
     for ei in range(len(elements) - 1):
         lhs, rhs = elements[ei], elements[ei + 1]
         if isinstance(lhs, Stochastic):
@@ -131,7 +136,7 @@ def reference_graph(g, mol):
             for (t2, b2) in R:
                 if rule(b1, b2) and positive(b2.weight):  # zero-weight links can never be taken: immaterial
                     edges.append((atom_of(t1, b1), atom_of(t2, b2), "transition", int(b1.bond_type), b2.weight))
-    return nodes, edges, list_sources
+    return nodes, edges, (list_sources, known)
 
 
 def code_graph(G):
@@ -157,6 +162,9 @@ def code_graph(G):
 
 
 def compare(P, ref_nodes, ref_edges, nodes, edges, list_sources=()):
+    known = []
+    if isinstance(list_sources, tuple) and len(list_sources) == 2 and isinstance(list_sources[1], list):
+        list_sources, known = list_sources
     P.check(len(nodes) == len(ref_nodes) and all(nodes.get(i) == ref_nodes[i] for i in range(len(ref_nodes))),
             "nodes: one per atom with element, charge, aromaticity")
     for kind, label in (("static", "static edges reproduce the internal bonds"), ("stochastic", "stochastic / termination edges"),
@@ -169,6 +177,10 @@ def compare(P, ref_nodes, ref_edges, nodes, edges, list_sources=()):
             b1 = [e for e in b if e[0] not in list_sources]
             P.check(a1 == b1, label + f" ({kind}: same edge multiset)")
             P.check(a == b or a1 != b1, f"edges of descriptors with a transition list ({kind})")
+            if a != b and a1 == b1:
+                # the list part deviates from the statement: is it the recorded deviation, or something else?
+                kL = sorted((u, v, bt) for u, v, k, bt in known if k == kind)
+                P.check(b == kL, f"edges of descriptors with a transition list: other than the recorded deviation ({kind})")
         else:
             P.check(a == b, label + f" ({kind}: same edge multiset)")
         if a == b:
